@@ -17,7 +17,7 @@ from pennylane.queuing import AnnotatedQueue, QueuingManager
 from vf import symbit as sb
 from vf.common import DISCHARGED, VIOLATED, INCONCLUSIVE
 
-STEPS = ["plain", "adjoint", "ctrl", "pow", "s_prod", "prod", "matmul", "sum", "expval", "stop_recording", "nested", "nested+exception", "apply", "probs", "adjoint(ctrl)", "nested stop_recording in nested"]
+STEPS = ["plain", "adjoint", "ctrl", "pow", "s_prod", "prod", "matmul", "sum", "expval", "stop_recording", "nested", "nested+exception", "apply", "probs", "adjoint(ctrl)", "nested stop_recording in nested", "pow eager, even power of X", "pow eager of RX", "QuantumTape with an operator after a measurement"]
 
 
 class Boom(Exception):
@@ -72,6 +72,20 @@ def run_program(codes):
                 base = qp.RZ(0.3 + step, w())
                 c = qp.ctrl(base, control=(w() + 1) % 3)
                 expected.append(qp.adjoint(c))
+            elif kind == "pow eager, even power of X":
+                base = qp.PauliX(w())
+                expected.append(qp.pow(base, 2, lazy=False))  # X**2 simplifies to an Identity: only the result is recorded
+            elif kind == "pow eager of RX":
+                base = qp.RX(0.4 + step, w())
+                expected.append(qp.pow(base, 3, lazy=False))
+            elif kind == "QuantumTape with an operator after a measurement":
+                try:
+                    with qp.tape.QuantumTape() as bad:
+                        qp.expval(qp.PauliZ(w()))
+                        qp.PauliX(w())
+                except ValueError:
+                    pass  # invalid circuit: constructing it raises by design; the context stack must be restored all the same
+                expected.append(bad)  # a QuantumTape opened inside a recording context is itself recorded in the parent
             elif kind == "stop_recording":
                 with QueuingManager.stop_recording():
                     hidden.append(qp.CNOT([w(), (w() + 1) % 3]))
